@@ -192,6 +192,10 @@ def _corruption_events(task):
             out.append(e)
         e = ev_convert(key[0], key[1], bad, conv, False, f"{name}{key} {what} (source)")
         out.append(e)
+        # both sides carry the same defect (e.g. the same table with a typo used as source and target)
+        out.append(ev_convert(key[0], key[1], bad, bad, False, f"{name}{key} {what} (both)"))
+        if len(bad) > 1:
+            out.append(ev_convert(key[0], key[1], bad, bad[1:] + bad[:1], True, f"{name}{key} {what} (both, rotated)"))
     return out
 
 
